@@ -22,3 +22,23 @@ package crypto
 //@   fresh c
 //@   pure
 //@   ensures err == nil ==> c != nil && ref(c) > 0 && sskey(c) == seq(sharedKey)
+
+// ---------------------------------------------------------------- framing (C06)
+// packetsFromBytes cuts the whole stream into 1024-byte packets, the last one shorter (and absent when the length is a
+// multiple of 1024), however the reader delivers its bytes.
+//@ func packetsWithSizeFromBytes(length, r) (packets)
+//@   requires length == 1024 && r != nil
+//@   modifies stream(r)
+//@   ensures consumed: len(stream(r)) == 0
+//@   ensures count: len(packets) == (len(old(stream(r))) + 1023) / 1024
+//@   ensures chunks: forall(k, 0, len(packets), packets[k].length == len(packets[k].value) && seq(packets[k].value) == sub(old(stream(r)), 1024 * k, ite(1024 * k + 1024 <= len(old(stream(r))), 1024 * k + 1024, len(old(stream(r))))))
+//@   loop 0
+//@     invariant own: cap(packets) == 0 || fresh(packets)
+//@     invariant pos: len(old(stream(r))) == 1024 * len(packets) + len(stream(r)) && stream(r) == sub(old(stream(r)), 1024 * len(packets), len(old(stream(r))))
+//@     invariant chunks: forall(k, 0, len(packets), packets[k].length == 1024 && len(packets[k].value) == 1024 && seq(packets[k].value) == sub(old(stream(r)), 1024 * k, 1024 * k + 1024))
+//@ func packetsFromBytes(r) (packets)
+//@   requires r != nil
+//@   modifies stream(r)
+//@   ensures consumed: len(stream(r)) == 0
+//@   ensures count: len(packets) == (len(old(stream(r))) + 1023) / 1024
+//@   ensures chunks: forall(k, 0, len(packets), packets[k].length == len(packets[k].value) && seq(packets[k].value) == sub(old(stream(r)), 1024 * k, ite(1024 * k + 1024 <= len(old(stream(r))), 1024 * k + 1024, len(old(stream(r))))))
